@@ -232,3 +232,54 @@ func H_C08_stable_dot() {
 		verifAssert(f.imports[p0].name == ".", "and the import table still declares it as a dot-import")
 	}
 }
+
+// every File-level feature at once (header and package comments, cgo preamble, anonymous import,
+// canonical path, a cgo reference, a Dict, a Tag, comments in the body): three renders, raw and
+// formatted, give the same bytes, and GoString agrees with the formatted render
+func H_C08_repeat_rich() {
+	impSummaries()
+	canonicalMapOrder()
+	p0 := leadPath(0)
+	build := func(noFormat bool) *File {
+		f := NewFilePathName("local.example/x", "x")
+		f.NoFormat = noFormat
+		// comment shapes are C15's subject: one-line texts here
+		h, pc, cm := nondetString("header"), nondetString("pkgcomment"), nondetString("comment")
+		verifAssume(!verifHasPrefix(h, "/") && !verifContainsNewline(h))
+		verifAssume(!verifHasPrefix(pc, "/") && !verifContainsNewline(pc))
+		verifAssume(!verifHasPrefix(cm, "/") && !verifContainsNewline(cm))
+		f.HeaderComment(h)
+		f.PackageComment(pc)
+		f.CgoPreamble("#include <stdlib.h>")
+		f.Anon("z.example/anon")
+		f.CanonicalPath = nondetString("canonical")
+		f.Add(Qual("C", "free").Call(Nil()))
+		f.Add(Qual(p0, "A"))
+		f.Add(Qual("local.example/x", "Own"))
+		f.Add(Id("T").Values(Dict{Id("b"): Lit(1), Id("a"): Lit(nondetString("s"))}))
+		f.Add(Id("F").String().Tag(map[string]string{"json": "x,omitempty", "a": "b"}))
+		f.Add(Comment(cm))
+		return f
+	}
+	f := build(true)
+	o1, pan1 := c08fileRaw(f)
+	o2, pan2 := c08fileRaw(f)
+	o3, pan3 := c08fileRaw(f)
+	verifAssert(!pan1 && !pan2 && !pan3, "no panic")
+	verifObserve("raw", o1)
+	verifAssert(o1 == o2 && o2 == o3, "rendering the same File three times yields identical bytes")
+	fresh, _ := c08fileRaw(build(true))
+	verifAssert(fresh == o1, "and the bytes of an identically built File")
+	if !specGofmtOK(o1) {
+		return
+	}
+	g := build(false)
+	b1, b2 := &bytes.Buffer{}, &bytes.Buffer{}
+	e1 := g.Render(b1)
+	e2 := g.Render(b2)
+	verifAssert(e1 == nil && e2 == nil, "formatted renders succeed")
+	verifAssert(b1.String() == b2.String() && b1.String() == specGofmt(o1), "formatted renders are identical and are gofmt of the raw rendering")
+	var gs string
+	pan := verifPanics(func() { gs = g.GoString() })
+	verifAssert(!pan && gs == b1.String(), "GoString agrees with Render")
+}
